@@ -111,7 +111,7 @@ func enumerateKinds(t *testing.T, only string) {
 
 // TestDrawnSubsets: random slot subsets of the large kinds, random values.
 func TestDrawnSubsets(t *testing.T) {
-	harness.Check(t, "drawn-subsets", 3000, 100000, func(rt *rapid.T) {
+	harness.Check(t, "drawn-subsets", 3000, 72000, func(rt *rapid.T) {
 		kinds := astx.Kinds()
 		s := kinds[rapid.IntRange(0, len(kinds)-1).Draw(rt, "kind")]
 		slots := synth.SlotFields(s, astx.FToken, astx.FTokenList, astx.FChild, astx.FChildList, astx.FValue)
@@ -138,7 +138,7 @@ func TestDrawnSubsets(t *testing.T) {
 }
 
 func TestParsedPrograms(t *testing.T) {
-	harness.Check(t, "parsed-programs", 4000, 150000, func(rt *rapid.T) {
+	harness.Check(t, "parsed-programs", 4000, 100000, func(rt *rapid.T) {
 		v := rapid.SampledFrom(px.KeyVersions).Draw(rt, "version")
 		c := progs.Draw(rt, v, progs.StructuralOptions(v), 1, 4)
 		lay := c.G.Render(c.Root, progs.Policy(rt, phpgen.PolicyFull, nil))
@@ -172,7 +172,7 @@ func trunc(b []byte, n int) []byte {
 }
 
 func TestByteLevel(t *testing.T) {
-	harness.Check(t, "byte-level", 4000, 150000, func(rt *rapid.T) {
+	harness.Check(t, "byte-level", 4000, 100000, func(rt *rapid.T) {
 		src, class := inputs.Any(rt)
 		v := rapid.SampledFrom(px.KeyVersions).Draw(rt, "version")
 		r := px.Parse(src, v, true)
